@@ -3,7 +3,7 @@
 # Confirms a seeded change in the scratch worktree /tmp/wt_mut (never in /repo): demo passes without / fails with the
 # patch, the pinned test suite still passes with it, then runs the quick check against it.  Results -> /verif/seeded/<Cxx>-<name>/
 SRC=$1; P=$2; NAME=$3
-WT=/tmp/wt_mut
+WT=${WT:-/tmp/wt_mut}
 DEST=/verif/seeded/$P-$NAME
 mkdir -p $DEST
 cp $SRC/patch.diff $SRC/demo.py $SRC/meta.json $DEST/ 2>/dev/null
